@@ -174,6 +174,12 @@ def check(repo):
                                     "was supplied" % (s.name, attr, why), witness=desc)
         if s.name == "DP17.Pi":
             n_sites += _check_dp17(repo, r2, s, enc, ft)
+    # key-derived placement (SSE-1): the PRP must really depend on the key of each call
+    r4 = Rule("R6.4", "the PRP behind key-derived placement is a function of (key, input): no state kept between calls")
+    rules.append(r4)
+    from .c15 import check_prp_stateless
+    check_prp_stateless(repo, r4)
+
     # builders themselves
     seen = set()
     for s in schemes:
